@@ -16,8 +16,8 @@ import Vore.Extracted
 * `c11diff` — the cells in which the hand-written model, the regenerated tables and the
   documented tables differ (direction for the failing-input search when a theorem fails).
 -/
-namespace Vore.Driver
-open Vore Vore.Tables Vore.Extracted Vore.Spec Vore.Spec.Typing Vore.Spec.Grammar Vore.Pratt
+namespace Vore.Driver.C11
+open Vore Vore.Driver Vore.Tables Vore.Extracted Vore.Spec Vore.Spec.Typing Vore.Spec.Grammar Vore.Pratt
 
 def pexprStr : PExpr → String
   | .un op e => s!"( un {opGoName op} {pexprStr e} )"
@@ -230,10 +230,14 @@ def diffCells : List String :=
       else some s!"prefix:{opGoName o}:{goPrec.prefixPrecedence o}")
   ty ++ uty ++ rt ++ ev ++ uev ++ pr
 
+end Vore.Driver.C11
+
+namespace Vore.Driver
+
 def handleC11 (op : String) (fields : List String) : Option String :=
-  if op == "proc" then some (handleProc fields)
-  else if op == "c11parse" then some (handleParse fields)
-  else if op == "c11diff" then some ("DIFF " ++ " ".intercalate (diffCells.map (fun s => s.replace " " "_")))
+  if op == "proc" then some (C11.handleProc fields)
+  else if op == "c11parse" then some (C11.handleParse fields)
+  else if op == "c11diff" then some ("DIFF " ++ " ".intercalate (C11.diffCells.map (fun s => s.replace " " "_")))
   else none
 
 end Vore.Driver
